@@ -119,8 +119,10 @@ func (e *kvElection) checkKeyAndReelect(ctx context.Context) {
 		return
 	}
 
+	// Also when no leader is known yet: a follower whose watch delivers nothing
+	// (lost events, failed or closed watch) learns the leader from this read alone.
 	currentLeaderID := e.LeaderID()
-	if currentLeaderID != "" && currentLeaderID != newLeaderID {
+	if currentLeaderID != newLeaderID {
 		log := e.getLogger()
 		log.Info("leader_changed_periodic_check",
 			append(e.logWithContext(ctx),
